@@ -14,7 +14,7 @@
    outcome [Ok]; whether the call succeeds is not part of them (see C19_K1_refuted). *)
 From Coq Require Import NArith List Arith.
 From GV Require Import Base.Result Model.Optimize Spec.HeapIso Proofs.C19.Base Proofs.C19.StoreLemmas
-  Proofs.C19.CloneData Proofs.C19.OptimizeProof Proofs.C19.Reader Proofs.C19.Examples.
+  Proofs.C19.CloneData Proofs.C19.OptimizeProof Proofs.C19.Reader Proofs.C19.Closure Proofs.C19.Examples.
 Import ListNotations.
 
 (* clone_data: the result reads as the argument did, and the original is intact: no cell below the
@@ -54,6 +54,17 @@ Print Assumptions C19_reader_sound.
 Theorem C19_reader_complete : forall h a t, Reads h a t -> exists n, forall m, n <= m -> read_f m h a = Some t.
 Proof. exact read_f_complete. Qed.
 Print Assumptions C19_reader_complete.
+
+(* the worklist-closure lemma: after a successful create_index_stack every queued address is followed,
+   later in the list, by each address its cell refers to ([kids_of]: what the match of
+   create_index_stack queues for a cell); this is what lets the reverse-order copy loop find every
+   child already copied *)
+Theorem C19_worklist_closed : forall s from s1 start, create_index_stack s from = Ok (s1, start) ->
+  start = length (cells s) /\
+  nth_error (cells s1) start = Some (CCloneItem from) /\
+  closed_upto (cells s1) start (length (cells s1)).
+Proof. exact create_index_stack_closed. Qed.
+Print Assumptions C19_worklist_closed.
 
 (* non-vacuity: concrete stores meet the hypotheses, the calls succeed and move things *)
 Example C19_ex_optimize : exists s', optimize ex_store [2; 10] = Ok (s', [3; 0]) /\
